@@ -323,18 +323,27 @@ impl CelValue {
         }
     }
 
+    // Widening a uint to int must not change its value: anything above i64::MAX
+    // becomes an error value instead of wrapping to a negative number.
+    fn uint_as_int(u: u64) -> CelValue {
+        match i64::try_from(u) {
+            Ok(i) => i.into(),
+            Err(_) => CelValue::value_error("uint value does not fit in int"),
+        }
+    }
+
     fn type_prop(lhs: CelValue, rhs: CelValue) -> (CelValue, CelValue) {
         if let CelValue::Int(l) = lhs {
             match rhs {
                 CelValue::Int(_) => (lhs, rhs),
-                CelValue::UInt(u) => (lhs, (u as i64).into()),
+                CelValue::UInt(u) => (lhs, CelValue::uint_as_int(u)),
                 CelValue::Float(_) => ((l as f64).into(), rhs),
                 CelValue::Bool(b) => (lhs, (b as i64).into()),
                 _ => (lhs, rhs),
             }
         } else if let CelValue::UInt(l) = lhs {
             match rhs {
-                CelValue::Int(_) => ((l as i64).into(), rhs),
+                CelValue::Int(_) => (CelValue::uint_as_int(l), rhs),
                 CelValue::UInt(_) => (lhs, rhs),
                 CelValue::Float(_) => ((l as f64).into(), rhs),
                 CelValue::Bool(b) => (lhs, (b as u64).into()),
@@ -374,6 +383,17 @@ impl CelValue {
     pub fn ord(self, rhs_value: CelValue) -> CelResult<Option<Ordering>> {
         let type1 = self.as_type();
         let type2 = rhs_value.as_type();
+
+        // int and uint are ordered as the numbers they denote, over the full range of both
+        match (&self, &rhs_value) {
+            (CelValue::Int(l), CelValue::UInt(r)) => {
+                return Ok((*l as i128).partial_cmp(&(*r as i128)))
+            }
+            (CelValue::UInt(l), CelValue::Int(r)) => {
+                return Ok((*l as i128).partial_cmp(&(*r as i128)))
+            }
+            _ => {}
+        }
 
         let (lhs, rhs) = CelValue::type_prop(self, rhs_value);
 
